@@ -223,6 +223,27 @@ def check_lookup_model(ctx, out, pfp0, rule="C16.lookup"):
     return n == total
 
 
+def shared_lookup(ctx, out, rule):
+    """The grammar lookup's small model for another property: adopted when it decides (no verdict otherwise)."""
+    pfp = None
+    for b in ctx.facts.bodies.values():
+        if b.promoted is not None or b.kind not in ("Fn", "AssocFn") or b.id not in ctx.reach:
+            continue
+        if re.match(r"std::option::Option<&.*dyn blockwatch::block_parser::BlocksParser", b.local_ty(0)) and any("std::path::Path" in b.local_ty(i) for i in range(1, b.argc + 1)):
+            pfp = b
+    tr = out.trial()
+    verdict = None
+    if pfp is not None:
+        try:
+            verdict = check_lookup_model(ctx, tr, pfp, rule=rule)
+        except Exception as e:      # noqa: BLE001
+            ctx.view_fallbacks.append("%s: small-model analysis failed (%s: %s)" % (rule, type(e).__name__, e))
+    if verdict is None:
+        out.inst(rule, 0, 0, note="the lookup's small model could not follow the code")
+    else:
+        out.adopt(tr)
+
+
 def run(ctx, out, tier):
     lp, rows = extract_table(ctx)
     n = 0
